@@ -157,6 +157,29 @@ fn generic<S: Scheme>(ctx: &mut Ctx, rng: &mut ChaCha20Rng) {
                 }
             }
         }
+        // the inner-product prover folds the given commitments into the statement it proves: a polynomial whose
+        // degree bound differs from the one recorded on its commitment is an inconsistent request
+        if S::NAME == "ipa" {
+            let z = S::gen_point(cfg, rng);
+            for i in 0..tx.polys.len() {
+                let (have, deg) = (tx.specs[i].bound, tx.polys[i].degree());
+                let mut alts: Vec<Option<usize>> = [deg, deg + 1, sup, (deg + sup) / 2, sup.saturating_sub(1)]
+                    .into_iter()
+                    .filter(|b| *b >= deg && *b <= sup && Some(*b) != have)
+                    .map(Some)
+                    .collect();
+                alts.dedup();
+                if have.is_some() {
+                    alts.push(None);
+                }
+                for alt in alts.into_iter().take(4) {
+                    let relabelled: LPoly<S> = LabeledPolynomial::new(tx.polys[i].label().clone(), tx.polys[i].polynomial().clone(), alt, tx.specs[i].hiding);
+                    let mut r = mon_rng(9);
+                    let res = attempt(|| PcOf::<S>::open(&tx.w.ck, [&relabelled], [&tx.c.comms[i]], &z, &mut tx.sponge(), [&tx.c.states[i]], Some(&mut r)));
+                    refused(ctx, "bound-differs-from-commitment", "open", json!({"cfg": cfg.json(), "degree": deg, "commitment_bound": have, "polynomial_bound": alt, "hiding": tx.specs[i].hiding}), res);
+                }
+            }
+        }
         // a commitment presented with a bound the verifier key was not trimmed for
         if let Some(i) = (0..tx.polys.len()).find(|&i| tx.specs[i].bound.is_some()) {
             let cs: Vec<LComm<S>> = tx.c.comms.iter().enumerate().map(|(j, c)| if j == i { LabeledCommitment::new(c.label().clone(), c.commitment().clone(), Some(beyond)) } else { c.clone() }).collect();
